@@ -18,6 +18,9 @@ Arguments bind : simpl never.
 Arguments ret : simpl never.
 Arguments emit : simpl never.
 Arguments emits : simpl never.
+Arguments scan : simpl never.
+Arguments scan_vec : simpl never.
+Arguments des_sbox_rows : simpl never.
 
 Lemma fst_bind {A B} (m : M A) (f : A -> M B) : fst (bind m f) = fst (f (fst m)).
 Proof. reflexivity. Qed.
@@ -151,7 +154,7 @@ Qed.
 Lemma des_S_leak_aux_fst : forall sb x,
   fst (des_S_leak_aux sb x) = des_S_aux (map snd sb) x.
 Proof.
-  induction sb as [|[j Sb] t IH]; intros x; simpl.
+  induction sb as [|[j Sb] t IH]; intros x; cbn [des_S_leak_aux des_S_aux map snd].
   - reflexivity.
   - rewrite ?fst_bind, ?fst_ret, IH, des_sbox_scan. reflexivity.
 Qed.
@@ -166,10 +169,10 @@ Lemma des_S_leak_aux_snd : forall sb x,
   snd (des_S_leak_aux sb x) =
   flat_map (fun j => scan_trace (R_des_sbox j) SITE_LOOKUP32 64 0) (rev (map fst sb)).
 Proof.
-  induction sb as [|[j Sb] t IH]; intros x; simpl.
+  induction sb as [|[j Sb] t IH]; intros x; cbn [des_S_leak_aux map fst rev].
   - reflexivity.
   - autorewrite with leak. rewrite IH, des_sbox_rows_length.
-    rewrite flat_map_app. simpl. rewrite app_nil_r. reflexivity.
+    rewrite flat_map_app. cbn [flat_map]. rewrite app_nil_r. reflexivity.
 Qed.
 
 Lemma des_S_leak_snd : forall x, snd (des_S_leak x) = des_S_trace.
